@@ -5,6 +5,7 @@ import Bmc.Proofs.GenLoops.BuildAndSendCommand
 import Bmc.Proofs.EndToEnd.SessionC11
 import Bmc.Proofs.EndToEnd.SessionlessC11
 import Bmc.Proofs.EndToEnd.HistoryC11
+import Bmc.Proofs.EndToEnd.WholeC04
 #print axioms Bmc.Proofs.C11.session_result_matches_request
 #print axioms Bmc.Proofs.C11.stray_is_retry
 #print axioms Bmc.Proofs.C11.sessionless_result_matches_request
@@ -24,3 +25,5 @@ import Bmc.Proofs.EndToEnd.HistoryC11
 #print axioms Bmc.Proofs.EndToEnd.generated_sessionless_loop_result_matches_request
 #print axioms Bmc.Proofs.EndToEnd.sendCommand_result_justified
 #print axioms Bmc.Proofs.EndToEnd.generated_history_results
+#print axioms Bmc.Proofs.EndToEnd.generated_session_then_history_results
+#print axioms Bmc.Proofs.EndToEnd.integ_ne_zero_of_negotiated
